@@ -72,6 +72,8 @@ type Scenario struct {
 	Prior string `json:"prior,omitempty"`
 	// CustomParse: network clients only: build with NewClient and a wrapped ParseResponseFunc so parser entry is observable
 	CustomParse bool `json:"custom_parse,omitempty"`
+	// FlushFails (kind serial-flush): the port's Flush fails
+	FlushFails bool `json:"flush_fails,omitempty"`
 	// Again: after the judged call has returned, the same call is made once more on the same client object with a background context and
 	// a transport that delivers the whole reply in one read (Outcome.AgainErr / AgainHung / AgainElapsed): a failed call leaves the
 	// client usable, so the next call returns too
@@ -234,7 +236,7 @@ func Run(sc Scenario) (out Outcome) {
 	if address == "" {
 		address = "script:1"
 	}
-	script := &xport.Script{Stream: append([]byte(nil), sc.Stream...), Events: append([]xport.Event(nil), sc.Events...), WriteErr: sc.WriteErr, OnCancel: cancel}
+	script := &xport.Script{Stream: append([]byte(nil), sc.Stream...), Events: append([]xport.Event(nil), sc.Events...), WriteErr: sc.WriteErr, FlushErr: sc.FlushFails, OnCancel: cancel}
 	seq := 0
 	script.Seq = &seq
 	var rec *Recorder
